@@ -127,7 +127,11 @@ void out_list32(const char *k, const uint32_t *p, size_t n) {
 }
 
 /* ---- guarded buffers ---- */
-uint8_t gbuf_canary(size_t i) { return (uint8_t)(0xA5 ^ (i * 7)); }
+/* the canary pattern depends on the --poison value, so that output bytes the
+ * library leaves unwritten (residue of the destination) differ between the
+ * poison modes of the purity check */
+static unsigned g_poison; /* 0 = no stack poisoning */
+uint8_t gbuf_canary(size_t i) { return (uint8_t)((0xA5 ^ (i * 7)) ^ (g_poison * 0x3B)); }
 gbuf gbuf_new(size_t size, unsigned align) {
     gbuf g;
     g.pad = 64;
@@ -225,7 +229,6 @@ static void on_fault(int sig) {
     _exit(3);
 }
 
-static unsigned g_poison = 0; /* 0 = no stack poisoning */
 static void __attribute__((noinline)) poison_stack(unsigned pat) {
     volatile uint8_t big[96 * 1024];
     for (size_t i = 0; i < sizeof big; i++) big[i] = (uint8_t)(pat + (i >> 3));
